@@ -911,7 +911,10 @@ func splitInlineBox(context *layoutContext, box_ Box, positionX, maxX, bottomSpa
 			lastLetter = ' '
 		} else if lastLetter == letterFalse {
 			lastLetter = ' ' // no-break space
-		} else if box.Style.GetWhiteSpace() == "pre" || box.Style.GetWhiteSpace() == "nowrap" {
+		}
+		if ws := box.Style.GetWhiteSpace(); ws == "pre" || ws == "nowrap" {
+			// also when the space that ends the previous child has been collapsed
+			// away (TrailingCollapsibleSpace): no wrapping between the children
 			canBreak = pr.False
 		}
 		if canBreak == nil {
